@@ -131,6 +131,11 @@ def run(prop, tier, replay=None):
     pool = []
     if replay:
         payload = json.load(open(replay))
+        if payload.get("listener"):
+            import listener
+            lv, lcov = listener.run_half(tier, rnd, replay=payload["schedule"])
+            print(json.dumps(lcov)[:800])
+            return vlib.verdict(prop, lv)[0]
         multis, solos = [payload["multi"]], payload["solos"]
     else:
         per = 40 if tier == "quick" else 400
@@ -212,16 +217,24 @@ def run(prop, tier, replay=None):
                                    "what": "session %d of %s behaves differently next to the other sessions (first difference at %s)" % (k, m["id"], str(first)[:200]),
                                    "replay": {"multi": m, "burst": bool(m.get("burst")), "solos": [s for s in solos if s["id"].startswith(base + "-solo")],
                                               "with_others": oa[:40], "alone": ob[:40]}})
+    # the accept loop of the real Gateway over loopback sockets (families/listener.py)
+    listener_cov = None
+    if not replay:
+        import listener
+        lv, listener_cov = listener.run_half(tier, rnd)
+        violations += lv
     code, n_new, n_known = vlib.verdict(prop, violations)
-    cov = dict(states=states, transitions=transitions, traces_validated_against_impl=len(traces),
+    cov = dict(states=states, transitions=transitions, traces_validated_against_impl=len(traces) + (listener_cov or {}).get("schedules", 0),
+               listener=listener_cov,
                samples=[{"multi_schedule": multis[0]["events"][:25] if multis else None}],
                evaluations=compared, distinct_nontrivial=len(cover),
                rule="evaluations = session projections compared with their solo run and judged by the single-session trace spec; "
                     "distinct_nontrivial = distinct (state, phase, event, post-state) combinations exercised in multi-session runs",
                exhaustive=False, steps=stat, sessions_per_run="2-3", known_findings=n_known)
     vlib.write_evidence(prop, tier, "model_checking", cov, time.time() - t0, violations=n_new,
-                        assumptions=["sessions are created through the verif hook that mirrors Gateway.ListenAndServe's sharing "
-                                     "(one handlerConfig, one predefined-topic map, one logger)",
+                        assumptions=["session-level runs: sessions are created through the verif hook that mirrors Gateway.ListenAndServe's sharing "
+                                     "(one handlerConfig, one predefined-topic map, one logger); listener-level runs: the real Gateway over "
+                                     "loopback UDP/TCP in real time, every event waits up to 3 s for its own effect",
                                      "each multi-session schedule runs twice: events of different sessions serialised by the step driver, "
                                      "and simultaneous events processed concurrently (burst runs, half of them with GOMAXPROCS=1)"])
     return code
